@@ -69,6 +69,9 @@ func (c *Ctx) TokenGameRound(fs []Finding, ps []*prog.Program, o RoundOpts) erro
 	c.Extra["program_tags:"+o.Label] = tagCount
 	c.Extra["schedules:"+o.Label] = len(scheds)
 	job := &Job{Programs: ps, Schedules: scheds, Opts: o.Job}
+	if job.Opts.Perturb == 0 {
+		job.Opts.Perturb = 9
+	}
 	if job.Opts.Seed == 0 {
 		job.Opts.Seed = c.Seed
 	}
